@@ -52,6 +52,12 @@ def run(ctx):
         js.append({"name": name, "kind": kind, "specs": trace.task_specs(rng, kind, 3), "objective": rng.choice(["sphere", "rastrigin"]), "minmax": rng.choice(["min", "max"]),
                    "seed": rng.randrange(1, 10 ** 6), "cfg": {"max_cycles": rng.choice([14, 20, 26]), "fitness_error": None}, "mode": "serial", "stop": "budget-long",
                    "history": [{"seed": rng.randrange(1, 10 ** 6), "which": "same"}]})
+    # the same Task OBJECT optimized twice by one instance (what `optimize(task); optimize(task)` is): anything cached per task object must not carry a run's wear
+    for name in optimizers.names():
+        kind = rng.choice(["cont-sym", "cont"])
+        js.append({"name": name, "kind": kind, "specs": trace.task_specs(rng, kind, 3), "objective": rng.choice(["sphere", "rastrigin"]), "minmax": rng.choice(["min", "max"]),
+                   "seed": rng.randrange(1, 10 ** 6), "cfg": {"max_cycles": rng.choice([6, 10]), "fitness_error": None}, "mode": "serial", "stop": "budget",
+                   "history": [{"which": "same-object"}] * rng.choice([1, 2])})
     for j in jobs.param_sweep_jobs(rng, optimizers.names(), kinds=("cont-sym", "cont-tiny"), max_cycles=3):
         if rng.random() < 0.35:
             j["history"] = [{"seed": rng.randrange(1, 10 ** 6), "which": "same"}]
